@@ -96,6 +96,8 @@ struct Built {
     bytes: Vec<u8>,
     regions: Vec<Region>,
     contents: Vec<Vec<u8>>,
+    /// checksum sectors of multi-sector files with sector checksums: [start, end) in the image
+    crc_sectors: Vec<(usize, usize)>,
 }
 
 fn build(k: &KindDef, dir: &std::path::Path) -> Result<Built, String> {
@@ -156,6 +158,33 @@ fn build(k: &KindDef, dir: &std::path::Path) -> Result<Built, String> {
         add_file(&mut ar, &f.name, class, Some(i), c.len())?;
         contents.push(c);
     }
+    // where the checksum sectors are (read from each file's sector offset table, decrypted with the
+    // reference cipher where the file is encrypted): entries n and n+1 of the table delimit it
+    let mut crc_sectors: Vec<(usize, usize)> = vec![];
+    if crc_on {
+        for (i, f) in k.spec.files.iter().enumerate() {
+            let len = contents[i].len();
+            if len <= sector {
+                continue;
+            }
+            let info = ar.find_file(&f.name).map_err(|e| e.to_string())?.ok_or("file vanished")?;
+            if !info.is_compressed() {
+                continue;
+            }
+            let n = len.div_ceil(sector);
+            let start = info.file_pos as usize;
+            let mut table = bytes[start..start + (n + 2) * 4].to_vec();
+            if f.enc != Enc::None {
+                let key = vcheck::oracle::refcrypt::file_key(f.name.as_bytes(), f.enc == Enc::FixKey, info.file_pos as u32, len as u32);
+                vcheck::oracle::refcrypt::decrypt_bytes(&mut table, key.wrapping_sub(1));
+            }
+            let e = |j: usize| u32::from_le_bytes(table[j * 4..j * 4 + 4].try_into().unwrap()) as usize;
+            let (a, b) = (e(n), e(n + 1));
+            if e(0) == (n + 2) * 4 && a <= b && b <= info.compressed_size as usize {
+                crc_sectors.push((start + a, start + b));
+            }
+        }
+    }
     let lf = ar.read_file("(listfile)").map_err(|e| e.to_string())?;
     add_file(&mut ar, "(listfile)", "listfile", None, lf.len())?;
     if k.spec.has_attributes() {
@@ -195,7 +224,7 @@ fn build(k: &KindDef, dir: &std::path::Path) -> Result<Built, String> {
             i += 1;
         }
     }
-    Ok(Built { bytes, regions, contents })
+    Ok(Built { bytes, regions, contents, crc_sectors })
 }
 
 fn md5_all_valid(ar: &mut Archive) -> Option<bool> {
@@ -215,8 +244,23 @@ struct Ctx<'a> {
 fn judge(cx: &Ctx, image: &[u8], region: Option<&Region>, tag: usize) -> Result<&'static str, Fail> {
     let path = cx.dir.join(format!("f{tag}.mpq"));
     std::fs::write(&path, image).expect("write image");
-    let r = judge_path(cx, &path, region);
+    let mut r = judge_path(cx, &path, region);
     let _ = std::fs::remove_file(&path);
+    // The format reads a checksum entry of 0 (or 0xFFFFFFFF) as "this sector carries no checksum".
+    // An overwrite that also turns checksum entries into that marker removes the protection it would
+    // have tripped: a limit of the format's tolerance rule, reported under its own signature.
+    if let Err(f) = &mut r {
+        if f.signature.starts_with("silent-corruption:") {
+            let cleared = cx.b.crc_sectors.iter().any(|&(a, b)| {
+                (a..b.min(image.len())).step_by(4).any(|o| {
+                    o + 4 <= b && o + 4 <= image.len() && image[o..o + 4] != cx.b.bytes[o..o + 4] && (image[o..o + 4] == [0, 0, 0, 0] || image[o..o + 4] == [0xFF, 0xFF, 0xFF, 0xFF])
+                })
+            });
+            if cleared {
+                f.signature = f.signature.replacen("silent-corruption:", "silent-corruption-with-checksum-entries-cleared:", 1);
+            }
+        }
+    }
     r
 }
 
